@@ -1,4 +1,6 @@
 import Hub.Proofs.Sync
+import Hub.Model.Pipeline
+import Hub.Generated.Pipeline
 /-!
 # C08 — incremental jobs converge and tokens never run ahead of delivered data
 
@@ -103,5 +105,58 @@ example :
     let l : List Step := [.write (1, 10), .write (1, 11)] ++ pages 5 1 ++ [.startFull true, .deliver 1, .abort] ++ pages 5 3
     let s := run {} l
     getA 1 s.sink = some 11 ∧ latest s.src 1 = some 11 ∧ s.tok = s.src.length := by decide
+
+/-! ## the tie to pipeline.go / union_source.go: regenerated skeletons -/
+set_option maxRecDepth 8000 in
+open Hub.Facts.Pipeline Hub.Pipe in
+/-- incremental pipeline: per page the sink is called first, its error leaves the closure, only then is the
+token encoded and stored; the stored state is read once, before the loop. -/
+theorem facts_incremental_order :
+    proj ["runner.store.GetObject", "pipeline.sink.processEntities", "continuationToken.Encode", "runner.store.StoreObject", "pipeline.source.ReadEntities"]
+        skeleton_IncrementalPipeline
+      = ["runner.store.GetObject", "pipeline.sink.processEntities", "continuationToken.Encode", "runner.store.StoreObject", "pipeline.source.ReadEntities"]
+    ∧ errChecked "pipeline.sink.processEntities" skeleton_IncrementalPipeline = true
+    ∧ errChecked "runner.store.StoreObject" skeleton_IncrementalPipeline = true
+    ∧ errChecked "pipeline.source.ReadEntities" skeleton_IncrementalPipeline = true := by decide
+
+set_option maxRecDepth 8000 in
+open Hub.Facts.Pipeline Hub.Pipe in
+/-- full-sync pipeline: the token is cleared and stored right after the sink's full sync started (`Step.fixed`),
+no token is stored inside the read loop, the sink's full sync is completed exactly once, after the loop, and the
+token is stored only after that completion succeeded; every failing step leaves the function. -/
+theorem facts_fullsync_order :
+    proj ["runner.store.GetObject", "pipeline.sink.startFullSync", "set syncJobState.ContinuationToken = \"\"", "if storeSyncState {",
+          "runner.store.StoreObject", "pipeline.sink.processEntities", "continuationToken.Encode", "pipeline.source.ReadEntities", "pipeline.sink.endFullSync"]
+        skeleton_FullSyncPipeline
+      = ["runner.store.GetObject", "pipeline.sink.startFullSync", "set syncJobState.ContinuationToken = \"\"", "if storeSyncState {", "runner.store.StoreObject",
+         "pipeline.sink.processEntities", "continuationToken.Encode", "pipeline.source.ReadEntities", "pipeline.sink.endFullSync", "if storeSyncState {", "runner.store.StoreObject"]
+    ∧ resetAtStart skeleton_FullSyncPipeline = true
+    ∧ errChecked "pipeline.sink.startFullSync" skeleton_FullSyncPipeline = true
+    ∧ errChecked "pipeline.sink.processEntities" skeleton_FullSyncPipeline = true
+    ∧ errChecked "pipeline.source.ReadEntities" skeleton_FullSyncPipeline = true
+    ∧ errChecked "pipeline.sink.endFullSync" skeleton_FullSyncPipeline = true
+    ∧ errChecked "runner.store.StoreObject" skeleton_FullSyncPipeline = true := by decide
+
+set_option maxRecDepth 8000 in
+open Hub.Facts.Pipeline Hub.Pipe in
+/-- union source: the shared continuation is advanced before the callback, a failing callback leaves the read at
+once, and `Update` moves to the next member only when a member's token did not change. -/
+theorem facts_union :
+    proj ["dataset.MapEntities", "dataset.ProcessChanges", "d.Update", "processEntities", "ctx.Err"] skeleton_UnionRead
+      = ["ctx.Err", "dataset.MapEntities", "d.Update", "dataset.ProcessChanges", "d.Update", "processEntities"]
+    ∧ errChecked "set err = processEntities()" skeleton_UnionRead = true
+    ∧ errChecked "ctx.Err" skeleton_UnionRead = true
+    ∧ unionUpdate = ["t := c.ActiveToken()", "prevString := t.GetToken()", "c.Tokens[c.activeIdx] = &StringDatasetContinuation{newToken}",
+        "if newToken == prevString { if c.activeIdx < len(c.Tokens)-1 { c.activeIdx = c.activeIdx + 1 return true } return false }", "return true"] := by decide
+
+set_option maxRecDepth 8000 in
+open Hub.Facts.Pipeline Hub.Pipe in
+/-- dataset source: one page per call, handed to the callback whose error is returned; the dataset sink stores
+the batch through `Dataset.StoreEntities` (write-time duplicate detection, C01). -/
+theorem facts_source_sink :
+    proj ["dataset.ProcessChanges", "dataset.MapEntities", "processEntities"] skeleton_DatasetRead
+      = ["dataset.ProcessChanges", "dataset.MapEntities", "dataset.ProcessChanges", "processEntities"]
+    ∧ errChecked "processEntities" skeleton_DatasetRead = true
+    ∧ skeleton_datasetSinkProcess = ["datasetSink.DatasetManager.IsDataset", "if !exists {", "return", "}", "datasetSink.DatasetManager.GetDataset", "dataset.StoreEntities", "return"] := by decide
 
 end Hub.C08
